@@ -302,3 +302,24 @@ Theorem C17_flusher_write_failure_leaves_a_prefix :
          (firstn (nth (n - 1) (0%nat :: Flusher.cut_positions th ops ++ [length ops]) (length ops)) ops)).
 Proof. exact FlusherFacts.fl_fault_prefix. Qed.
 Print Assumptions C17_flusher_write_failure_leaves_a_prefix.
+
+(** the same for the byte stream of a commit (PhysCommit.v): a failing physical write during
+    SaveVersion is reported, and the database holds the first n-1 batches of the commit *)
+From IAVL Require Import FastLife PhysCommit PhysCommitFacts.
+
+Theorem C17_commit_write_failure_reported :
+  forall (H : bytes -> bytes) (th : Z) (n : nat) (st : fstate),
+    (1 <= n <= length (commit_batches H th st))%nat ->
+    exists s : Flusher.ffl,
+      Flusher.ffl_commit th n (commit_bops H st) = Flusher.FErr Flusher.EWriteFailed s /\
+      Flusher.nwrites s = n /\
+      Flusher.ffl_db_batches (Flusher.FErr Flusher.EWriteFailed s) =
+        firstn (n - 1) (commit_batches H th st) /\
+      (forall m : VMap.kvs,
+         Flusher.kv_apply_batches m (Flusher.ffl_db_batches (Flusher.FErr Flusher.EWriteFailed s)) =
+         Flusher.kv_apply_ops m
+           (firstn (nth (n - 1)
+                      (0%nat :: Flusher.cut_positions th (commit_bops H st) ++ [length (commit_bops H st)])
+                      (length (commit_bops H st))) (commit_bops H st))).
+Proof. exact commit_write_failure_reported. Qed.
+Print Assumptions C17_commit_write_failure_reported.
